@@ -449,7 +449,66 @@ def check_gp_runs(h: Harness):
                     f"(individuals presented {len(ev.presented)} times, {len(set(ev.presented))} distinct)", {"step": name, "pop": pop, "spec": spec})
 
 
+def check_real_representations(h: Harness):
+    """fitness must be computed from the phenotype the INDIVIDUAL keeps, for every representation and
+    both evaluators: after evaluation, recorded fitness == ff(individual.get_phenotype()), and the
+    parallel evaluator records what the sequential one records for individuals built the same way"""
+    import sys as _sys
+    import os as _os
+    _sys.path.insert(0, _os.path.dirname(_os.path.dirname(_os.path.abspath(__file__))))
+    import gram
+    import synth
+    from linear import DSGE, GE, SGE, Stack
+    from geneticengine.representations.tree.treebased import TreeBasedRepresentation
+    from geneticengine.solutions.individual import Individual
+    from geneticengine.exceptions import GeneticEngineError
+    import pargrammar
+    g = pargrammar.grammar()
+    ff = pargrammar.ff
+
+    for name in ("tree", "GE", "SGE", "DynamicSGE", "Stack"):
+        for evk in ("sequential", "parallel"):
+            for seed in range(h.n(2, 8)):
+                outs = []
+                r = NativeRandomSource(1000 * seed + 7)
+                rep = {"tree": lambda: TreeBasedRepresentation(g, synth.make_decider("grow", 4, r, g)),
+                       "GE": lambda: GE(g, synth.make_decider("grow", 4, r, g), gene_length=32),
+                       "SGE": lambda: SGE(g, synth.make_decider("grow", 4, r, g), gene_length=32),
+                       "DynamicSGE": lambda: DSGE(g, 4), "Stack": lambda: Stack(g, gene_length=128)}[name]()
+                inds = []
+                for _ in range(4):
+                    try:
+                        inds.append(Individual(rep.create_genotype(r), rep))
+                    except GeneticEngineError:
+                        pass
+                if len(inds) < 2:
+                    continue
+                problem = SingleObjectiveProblem(ff)
+                ev = ParallelEvaluator() if evk == "parallel" else SequentialEvaluator()
+                try:
+                    ev.evaluate(problem, inds)
+                except Exception as e:  # noqa: BLE001
+                    h.count(f"real-rep:{name}:{evk}:raised:{type(e).__name__}")
+                    continue
+                h.seen(f"real-rep:{name}:{evk}:{seed}")
+                h.count(f"real-rep:{name}:{evk}")
+                for k, ind in enumerate(inds):
+                    if not ind.has_fitness(problem):
+                        continue
+                    rec = ind.get_fitness(problem).fitness_components[0]
+                    try:
+                        real = ff(ind.get_phenotype())
+                    except Exception:  # noqa: BLE001
+                        continue
+                    if rec != real:
+                        h.fail(f"{'ParallelEvaluator' if evk == 'parallel' else 'SequentialEvaluator'}.evaluate", "fitness-not-of-the-individuals-program",
+                               f"{name} individual #{k} (seed {seed}): recorded fitness {rec} but the fitness function returns {real} for the program "
+                               f"the individual maps to", {"rep": name, "evaluator": evk, "seed": seed})
+                        break
+
+
 def run(h: Harness):
+    check_real_representations(h)
     check_aggregate(h)
     check_sequential(h)
     check_gp_runs(h)
